@@ -41,6 +41,12 @@ CHECKS.update({
     note="Trusted: TLC, Threads.tla, the scheduler in the harness. Forced switches exist only at the four yield points of datatype_factory (hook commit in /repo, guard HL7APY_VERIF); other shared-state touch points are exercised by preemptive stress only, which samples schedules.",
     ref="DESIGN.md §4 C19, §3.11, §6"),
 })
+CHECKS.update({
+ "C17": dict(technique="TLA+ history generator (Defaults.tla) enumerated by TLC; its histories of default changes interleaved with explicit calls, creations and observations replayed in real processes; every recorded call/observation judged by the TLC trace specification DefaultsTrace",
+    text="All histories up to length 4 over three values of each default (mapped onto all 12 versions in turn, both levels, three delimiter sets incl. a 2.7-style one) interleaved with Call / Create / Observe are generated by TLC; the ones ending in a call or observation under changed defaults are replayed: a corpus of about 110 explicit-argument calls per version (parsers at each level, constructors, builders, encoders, validators, datatype factories with valid, invalid and over-long values) must give the digests it gives under pristine defaults, and elements created earlier must encode and validate as when they were created.",
+    note="Trusted: TLC, the digest (class name + ER7 text with explicit delimiters / exception class / validation counts). The baseline is the implementation itself under pristine defaults (metamorphic oracle). Known finding: stand-alone elements read the default delimiters lazily.",
+    ref="DESIGN.md §4 C17, §3.10"),
+})
 NOT_YET = {}
 def main():
     props = [json.loads(l) for l in open(os.path.join(HERE, "properties.jsonl"))]
